@@ -22,14 +22,15 @@
 (*   End     body complete => commit; cut short => this URL failed           *)
 (*   Note    append the URL note          (sym only)                         *)
 (*   Remove  remove an existing entry      (sym only; "TODO: don't do this") *)
-(*   Persist persist_noclobber                                               *)
+(*   Persist persist_noclobber; when the move cannot succeed nothing is      *)
+(*           cached and no temp file stays behind                             *)
 (*   NextUrl a failed URL: the NamedTempFile is dropped (deleted), the next  *)
 (*           URL is tried; after the last one the lookup is NotFound         *)
 (*   Drop    the future is dropped at an await point: temp file deleted      *)
 (* C16: CacheComplete, NoStrayTemp, NoEntryOnFailure, ServedFromCache.       *)
 (***************************************************************************)
 EXTENDS Naturals, Sequences, TLC, FiniteSets, Json
-CONSTANTS Clients, N, MaxUrls, Statuses, DropPts, TmpOks, CacheOks, Kinds, Pres
+CONSTANTS Clients, N, MaxUrls, Statuses, DropPts, TmpOks, CacheOks, MoveOks, Kinds, Pres
 VARIABLES cache, tmp, pc, got, idx, script, env, out
 vars == <<cache, tmp, pc, got, idx, script, env, out>>
 NeverDrop == N + 1
@@ -37,7 +38,8 @@ DropAtSend == N + 2     \* dropAt = k in 0..N: dropped while waiting for more bo
 Absent == [present |-> FALSE, bytes |-> 0, note |-> FALSE, by |-> "none", url |-> 0]
 NoTmp == [open |-> FALSE, bytes |-> 0, note |-> FALSE]
 Scripts == [status : Statuses, cut : 0..N, badAt : 0..N, dropAt : DropPts]
-Envs == [pre : Pres, tmpOk : TmpOks, cacheOk : CacheOks, kind : Kinds]
+\* moveOk: the final move of the temp file into the cache can succeed (same file system, directory still there)
+Envs == [pre : Pres, tmpOk : TmpOks, cacheOk : CacheOks, moveOk : MoveOks, kind : Kinds]
 Complete(e) == e.present /\ e.bytes = N /\ (e.note <=> env.kind = "sym")
 SeqsUpTo(S, n) == UNION {[1..k -> S] : k \in 1..n}
 Init == /\ env \in Envs
@@ -71,7 +73,12 @@ Note(c) == /\ pc[c] = "note" /\ tmp' = [tmp EXCEPT ![c] = [@ EXCEPT !.note = TRU
            /\ UNCHANGED <<cache, got, idx, script, env, out>>
 Remove(c) == /\ pc[c] = "remove" /\ cache' = Absent /\ pc' = [pc EXCEPT ![c] = "persist"] /\ UNCHANGED <<tmp, got, idx, script, env, out>>
 Persist(c) == /\ pc[c] = "persist" /\ UNCHANGED <<got, script, env>>
-              /\ IF ~cache.present
+              /\ IF ~env.moveOk
+                 THEN \* the move fails: the temp file is deleted with its handle, nothing is cached; a parsed symbol file is still the
+                      \* lookup's answer (the failure is only logged), a binary has no path to return and the URL counts as failed
+                      IF env.kind = "sym" THEN /\ tmp' = [tmp EXCEPT ![c] = NoTmp] /\ pc' = [pc EXCEPT ![c] = "ok_commit_failed"] /\ UNCHANGED <<cache, idx, out>>
+                      ELSE FailUrl(c, "persist_error") /\ UNCHANGED cache
+                 ELSE IF ~cache.present
                  THEN /\ cache' = [present |-> TRUE, bytes |-> tmp[c].bytes, note |-> tmp[c].note, by |-> c, url |-> idx[c]]
                       /\ tmp' = [tmp EXCEPT ![c] = NoTmp] /\ pc' = [pc EXCEPT ![c] = "ok_cached"] /\ UNCHANGED <<idx, out>>
                  ELSE /\ UNCHANGED <<cache, idx, out>> /\ tmp' = [tmp EXCEPT ![c] = NoTmp]
@@ -88,7 +95,7 @@ Drop(c) == /\ \/ (pc[c] = "send" /\ WantsDrop(c, DropAtSend))
            /\ UNCHANGED <<cache, got, idx, script, env, out>>      \* only at await points
 Next == \E c \in Clients : Local(c) \/ Send(c) \/ Chunk(c) \/ End(c) \/ Note(c) \/ Remove(c) \/ Persist(c) \/ NextUrl(c) \/ Drop(c)
 Spec == Init /\ [][Next]_vars
-TerminalPcs == {"hit", "notfound", "ok_uncached", "ok_cached", "ok_lost_race", "file_lost_race", "dropped"}
+TerminalPcs == {"hit", "notfound", "ok_uncached", "ok_cached", "ok_lost_race", "ok_commit_failed", "file_lost_race", "dropped"}
 Terminal(c) == pc[c] \in TerminalPcs
 AllTerminal == \A c \in Clients : Terminal(c)
 \* ---- C16 ----
@@ -96,7 +103,7 @@ CacheComplete == ~cache.present \/ Complete(cache)
 NoStrayTemp == \A c \in Clients : Terminal(c) => ~tmp[c].open
 NoEntryOnFailure == \A c \in Clients : (cache.present /\ cache.by = c) => (pc[c] = "ok_cached" /\ cache.url = idx[c])
 \* a client that found nothing leaves the cache as it found it (single-client reading of "failed downloads leave no entry")
-AloneFailedLeavesNothing == (Cardinality(Clients) = 1) => \A c \in Clients : pc[c] \in {"notfound", "dropped", "ok_uncached"} => ~cache.present
+AloneFailedLeavesNothing == (Cardinality(Clients) = 1) => \A c \in Clients : pc[c] \in {"notfound", "dropped", "ok_uncached", "ok_commit_failed"} => ~cache.present
 TypeOK == /\ pc \in [Clients -> TerminalPcs \cup {"local", "send", "stream", "note", "remove", "persist", "nexturl"}]
           /\ \A c \in Clients : got[c] \in 0..N /\ idx[c] \in 1..Len(script[c]) /\ Len(out[c]) < idx[c] + 1
 Emit == AllTerminal => PrintT(<<"CASE", ToJson([env |-> env, script |-> script, pc |-> pc, cache |-> cache, idx |-> idx, out |-> out])>>)
